@@ -25,19 +25,15 @@ mutual
 def classSeq (cx : PCtx) : Schema → List Elem
   | .bool _ => []
   | .mk k items addI cont props pats addP pn deps anyOf oneOf allOf not =>
-    let addI' := parseAddl cx addI
-    let addP' := parseAddl cx addP
-    let p : Parts :=
+    let p : Parts := partsOf cx k
       { items := parseList cx items
-        addItems := addI'.1
-        addItemsB := addI'.2
+        addItems := parseAddl cx addI
         contains := parseOpt cx cont
-        props := buildProps cx (k.required.getD []) (parseNamed cx props)
-        patProps := (parseNamed cx pats).map (fun kv => ({ name := kv.1 }, kv.2))
-        addProps := addP'.1
-        addPropsB := addP'.2
+        props := parseNamed cx props
+        patProps := parseNamed cx pats
+        addProps := parseAddl cx addP
         propNames := parseOpt cx pn
-        deps := orderDeps (parseDeps cx deps) }
+        deps := parseDeps cx deps }
     let notE := parseOpt cx not
     seqNamed cx props ++ seqList cx items ++ seqNamed cx pats ++ seqOpt cx pn ++ seqOpt cx cont ++
       seqDeps cx deps ++ seqOpt cx addP ++ seqOpt cx addI ++
